@@ -249,6 +249,23 @@ fn seq_case(idx: u64, alg: Algorithm, a: &[u32], b: &[u32], threads: bool, tiny:
         }
         Err(p) => out.violation("panic", format!("{} | {}", p, ctx())),
     }
+    // (e2) only the NEW side relabelled to ANOTHER TYPE that compares by value with the old side's u32 but
+    // hashes differently (legal: only `New::Output: PartialEq<Old::Output>` relates the two sides): same
+    // equalities, so the same ops
+    {
+        use crate::mon::WideId;
+        let wb: Vec<WideId> = b.iter().map(|x| WideId(*x as u64)).collect();
+        out.eval();
+        out.count("heterogeneous_relabellings");
+        match guard(|| similar::capture_diff(alg, a, 0..a.len(), &wb[..], 0..wb.len())) {
+            Ok(o) => {
+                if o != base {
+                    out.violation("determinism.relabel_new_side_type", format!("new side relabelled to another item type (same values, another Hash): {} instead of {} | {}", fmt_ops(&o), fmt_ops(&base), ctx()));
+                }
+            }
+            Err(p) => out.violation("panic", format!("{} | {}", p, ctx())),
+        }
+    }
     // (f) the crate's own integer mapping as a relabelling.  First relabel by rank of first
     // occurrence (old, then new); IdentifyDistinct then hands out exactly those ranks, i.e. it is
     // the identity on the values - an order-preserving injective relabelling by construction.
